@@ -1,4 +1,4 @@
-From Verif Require Import Base.Sx Model.PipeEntry.
+From Verif Require Import Base.Sx Model.C05Full.
 From Coq Require Import Extraction ExtrOcamlBasic.
-Definition run := c05_pipe_entry.
+Definition run := c05_full_entry.
 Extraction "model.ml" run.
